@@ -356,6 +356,14 @@ class Batch:
                     if t["has_impl"].get(impl):
                         units.append(Unit("assert", t["id"], impl,
                                           "const _: fn() = || { fn a<T: %s>() {} a::<%s>(); };" % (bound, t["ident"])))
+            # what has_impl claims for the types WITHOUT a name of their own (tuples, arrays, options, natives ..) is asserted too
+            if not c.request["settings"].get("type_mod"):
+                for t in c.types:
+                    if t.get("kind") in NAMED or t.get("panic") or not isinstance(t.get("ident"), str): continue
+                    for impl, bound in IMPL_BOUNDS.items():
+                        if (t.get("has_impl") or {}).get(impl):
+                            units.append(Unit("assert", t["id"], impl,
+                                              "const _: fn() = || { fn a<T: %s>() {} a::<%s>(); };" % (bound, t["ident"])))
         for i, item in enumerate(extra):
             units.append(Unit("assert", None, "extra%d" % i, item))
         ops = set(self.opset)
